@@ -150,7 +150,7 @@ func genEnum(engine string, job *Job, prop string, seed, idx uint64) *RunOutcome
 }
 
 // enumOnce builds a fresh database, replays the prefix and runs target+follow with the plan.
-func enumOnce(rf *RunFile, target int, fault, crash int, post bool) (*Exec, error) {
+func enumOnce(rf *RunFile, target int, fault, crash int, post bool, abandon int) (*Exec, error) {
 	dir, err := scratchDir()
 	if err != nil {
 		return nil, err
@@ -168,7 +168,10 @@ func enumOnce(rf *RunFile, target int, fault, crash int, post bool) (*Exec, erro
 	defer e.Finish()
 	for i := 0; i < len(rf.Ops); i++ {
 		op := rf.Ops[i] // copy
-		op.Fault, op.Crash, op.CrashPost = 0, 0, false
+		op.Fault, op.Crash, op.CrashPost, op.Abandon = 0, 0, false, 0
+		if op.Note == "abandon-cb" {
+			op.Note = ""
+		}
 		if i < target {
 			// prefix: no oracle work needed beyond what Step does
 		}
@@ -176,8 +179,8 @@ func enumOnce(rf *RunFile, target int, fault, crash int, post bool) (*Exec, erro
 			continue // the fault-free reference run has just executed the target
 		}
 		if i == target {
-			op.Fault, op.Crash, op.CrashPost = fault, crash, post
-			if fault == 0 && crash == 0 {
+			op.Fault, op.Crash, op.CrashPost, op.Abandon = fault, crash, post, abandon
+			if fault == 0 && crash == 0 && abandon == 0 {
 				e.Ctl.Trace = true
 				e.Ctl.Events = nil
 			}
@@ -208,7 +211,7 @@ func enumOnce(rf *RunFile, target int, fault, crash int, post bool) (*Exec, erro
 				}
 			}
 		}
-		if i > target && e.V == nil && (fault > 0 || crash > 0) {
+		if i > target && e.V == nil && (fault > 0 || crash > 0 || abandon > 0) {
 			// follow-up succeeded: liveness after the fault
 			e.checked("follow-up-after-fault")
 		}
@@ -217,7 +220,7 @@ func enumOnce(rf *RunFile, target int, fault, crash int, post bool) (*Exec, erro
 		e.cur = nil
 		e.Audit()
 	}
-	if e.V != nil && e.V.OpIdx > target && (fault > 0 || crash > 0) && e.V.Rule != "C20/panic" {
+	if e.V != nil && e.V.OpIdx > target && (fault > 0 || crash > 0 || abandon > 0) && e.V.Rule != "C20/panic" {
 		// something went wrong AFTER the failed / crashed operation, on a database
 		// which is fine without the fault: the failure left a trace in the handle
 		if fault > 0 {
@@ -228,6 +231,10 @@ func enumOnce(rf *RunFile, target int, fault, crash int, post bool) (*Exec, erro
 			}
 			e.V.Props = append([]string{"C04", "C05"}, e.V.Props...)
 			e.V.Msg = "after an operation that failed because the store failed, the handle misbehaves: " + e.V.Msg
+		} else if abandon > 0 {
+			e.V.Rule = "C05/after-abandon(" + e.V.Rule + ")"
+			e.V.Props = append([]string{"C05"}, e.V.Props...)
+			e.V.Msg = "after an operation abandoned in mid-flight (its goroutine unwound before the commit), the handle misbehaves: " + e.V.Msg
 		} else {
 			e.V.Rule = "C05/after-crash(" + e.V.Rule + ")"
 			e.V.Props = append([]string{"C05"}, e.V.Props...)
@@ -249,7 +256,7 @@ func runEnum(rf *RunFile) *RunOutcome {
 		fam = "crash-enum"
 	}
 	// dry run: count positions
-	e0, err := enumOnce(rf, target, 0, 0, false)
+	e0, err := enumOnce(rf, target, 0, 0, false, 0)
 	if err != nil {
 		out.Trouble = err
 		return out
@@ -262,18 +269,22 @@ func runEnum(rf *RunFile) *RunOutcome {
 	}
 	n := e0.lastTargetFCalls
 	type pos struct {
-		k    int
-		post bool
+		k       int
+		post    bool
+		abandon bool
 	}
 	var positions []pos
 	if ks := rf.Cfg["k"]; ks != "" {
 		k, _ := strconv.Atoi(ks)
-		positions = []pos{{k, rf.Cfg["post"] == "1"}}
+		positions = []pos{{k, rf.Cfg["post"] == "1", rf.Cfg["abandon"] == "1"}}
 	} else {
 		add := func(k int) {
-			positions = append(positions, pos{k, false})
+			positions = append(positions, pos{k, false, false})
 			if isCrash {
-				positions = append(positions, pos{k, true})
+				positions = append(positions, pos{k, true, false})
+				if abandonable[rf.Ops[target].K] {
+					positions = append(positions, pos{k, false, true})
+				}
 			}
 		}
 		if n <= 150 {
@@ -312,10 +323,13 @@ func runEnum(rf *RunFile) *RunOutcome {
 	out.Evals = 0
 	for _, p := range positions {
 		var e *Exec
-		if isCrash {
-			e, err = enumOnce(rf, target, 0, p.k, p.post)
-		} else {
-			e, err = enumOnce(rf, target, p.k, 0, false)
+		switch {
+		case p.abandon:
+			e, err = enumOnce(rf, target, 0, 0, false, p.k)
+		case isCrash:
+			e, err = enumOnce(rf, target, 0, p.k, p.post, 0)
+		default:
+			e, err = enumOnce(rf, target, p.k, 0, false, 0)
 		}
 		if err != nil {
 			out.Trouble = err
